@@ -111,7 +111,7 @@ SameU(g1, g2, nq) == IF AnyOpaque(g1) \/ AnyOpaque(g2) THEN Cores(NonBar(g1)) = 
 
 StepOK(st) ==
   LET B == st.before  A == st.after  op == st.op
-      unchanged(S) == \A k \in S : k <= Len(A) /\ A[k].nq = B[k].nq /\ Cores(A[k].gates) = Cores(B[k].gates)
+      unchanged(S) == \A k \in S : k <= Len(A) /\ A[k].nq = B[k].nq /\ Cores(A[k].gates) = Cores(B[k].gates) /\ A[k].aux = B[k].aux
       all == 1..Len(B)
       new == A[Len(A)]
   IN
@@ -145,6 +145,11 @@ StepOK(st) ==
        ELSE IF A[a].nq # B[a].nq THEN "qubit-count-changed"
        ELSE IF SameU(A[a].gates, B[a].gates, B[a].nq) THEN "ok"
        ELSE IF op = "rmid" THEN "remove_identities-changed-the-action" ELSE "iqft-does-not-undo-qft"
+  ELSE IF op \in {"anc", "uncompute"} THEN     \* ancilla bookkeeping of one object: nothing of any other object may change
+       LET a == st.a + 1 IN
+       IF Len(A) # Len(B) \/ ~unchanged(all \ {a}) THEN "operand-or-bystander-modified"
+       ELSE IF op = "anc" /\ (A[a].nq # B[a].nq + 1 \/ Cores(A[a].gates) # Cores(B[a].gates)) THEN "new-ancilla"
+       ELSE "ok"
   ELSE "unknown-op"
 
 \* refinement binding: the transcribed operators (CircuitOps.tla) predict the recorded gate list of the object a
@@ -165,7 +170,7 @@ Predicted(st) ==
 Written(st) == IF st.op \in {"append_circuit", "iadd", "gate"} THEN st.after[st.dst + 1].gates
                ELSE IF st.op \in {"rmid", "qft_iqft"} THEN st.after[st.a + 1].gates
                ELSE st.after[Len(st.after)].gates
-Conforms(st) == st.op = "new" \/ st.exc # "" \/
+Conforms(st) == st.op \in {"new", "anc", "uncompute"} \/ st.exc # "" \/     \* (the ancilla bookkeeping is Synth.tla's subject)
                 (LET p == Predicted(st)  w == Written(st) IN Cores(p) = Cores(w) /\ Pattern(p) = Pattern(w))
 
 C14(c) ==
